@@ -34,16 +34,16 @@ CHECKS = {
             "documented expression and symmetric, force = -div of the reference tensor, Hessian = Jacobian of the reference force, "
             "symmetric option.", SX + " + path exploration", "5 C15"),
     "C16": ("Exact interpolatory quadrature of the library's own pointwise evaluations (symbolic grid around the product centre) equals its "
-            "analytic overlap, moment and kinetic matrices element-wise, and tr(P S), tr(P T) for a single shell - code vs code.", SX, "5 C16"),
+            "analytic overlap, moment and kinetic matrices element-wise, and tr(P S), tr(P T) (per shell pair, one and two centres) - code vs code.", SX, "5 C16"),
     "C17": ("Sufficient condition: arrays proved equal to Gram forms within C17's bounds (PSD / Schwarz then follow from a TRUSTED lemma); direct "
             "solver proofs of |S|<=1, 2x2 minors, (ab|ab)>=0 and the Schwarz inequality for s-type shells using exp / Boys bound instances. "
             "A Gram-form mismatch is reported only if the inequalities fail on the real output.", SX + " + trusted Gram lemma", "5 C17"),
     "C18": ("Regular-language obligations (z3 sequence theory) on the parsers' own patterns read from the source; the real parsers on "
             "skeleton files with layout chosen by symbolic integers (CrossHair, each property with a refuted wrong twin) and enumerated "
-            "concretely; from_pyscf on symbolic exponents / coefficients (SX).", "z3 regex theory + CrossHair (z3) on the real parsers + SX", "5 C18"),
+            "concretely; from_pyscf on symbolic exponents / coefficients and make_contractions (SX).", "z3 regex theory + CrossHair (z3) on the real parsers + SX", "5 C18"),
     "C19": ("One inductive step per public function from an arbitrary symbolic state: every argument element unchanged, second call == "
             "first call on fresh copies, numpy error state unchanged on returning and raising paths; fault points after seterr enumerated; "
-            "renormalisation after parameter changes.", SX + " + fault enumeration", "5 C19"),
+            "renormalisation after parameter changes; make_contractions; malformed screening tolerances.", SX + " + fault enumeration", "5 C19"),
     "C20": ("Screening predicate == documented cutoff with the smallest exponents (min as path splits), None / bool handling, monotonicity in the "
             "tolerance, screened matrices == unscreened with exactly those blocks zeroed through all assembly paths, conservative bound for "
             "s-type pairs (solver-proved with ln/exp monotonicity instances).", SX + " + path exploration", "5 C20"),
@@ -58,7 +58,8 @@ CHECKS = {
     "C11": ("Both orientations of every two-index block and all eight orientations of ERI blocks computed independently agree; "
             "every public module under every enumerated shell permutation; public arrays symmetric / Hermitian / eight-fold.", SX, "5 C11"),
     "C12": ("Translations, all 48 signed axis permutations, axis rotations with symbolic angle: arrays transform with the monomial "
-            "representation matrices (code vs code); angular momentum shifts by d x p.", SX, "5 C12"),
+            "representation matrices (code vs code); density-matrix fields (gradient, Laplacian, Hessian, stress tensor, force) are "
+            "invariant / rotate as vectors and tensors; angular momentum shifts by d x p.", SX, "5 C12"),
     "C13": ("Generalized = segmented, primitive permutation, primitive split, column scaling (positive / negative), linearity of "
             "un-normalised blocks, for the public modules (code vs code).", SX, "5 C13"),
     "C09": ("Assembly of all four base classes on labelled dummy blocks for every cart/sph assignment within bounds, rectangular T, "
